@@ -87,6 +87,7 @@ func main() {
 	repo := flag.String("repo", "", "repository (default /repo)")
 	dump := flag.String("dump", "", "debug: dump SSA of function spec")
 	tags := flag.String("tags", "", "debug: build tags for -dump")
+	emit := flag.Bool("emit", false, "debug: print the raw emission sites per mode")
 	flag.Parse()
 	if *repo != "" {
 		repoDir = *repo
@@ -107,6 +108,24 @@ func main() {
 				vdir = d
 			}
 		}
+	}
+	if *emit {
+		p, err := Load(*tags, nil)
+		if err != nil {
+			fmt.Fprintln(os.Stderr, err)
+			os.Exit(2)
+		}
+		m, _ := BuildModel(p)
+		for _, mode := range feasibleModes {
+			mr := NewModeReach(p, m, mode, sessionEntries(p), true)
+			ra := &rawAnalysis{mr: mr}
+			ra.run()
+			fmt.Printf("== mode %s: %d functions, %d raw sites\n", mode, len(mr.Funcs()), len(ra.Sites))
+			for _, s := range ra.Sites {
+				fmt.Printf("  %-28s %-30s via %-22s %v\n", p.Pos(instrPos(s.Instr)), shortName(s.Fn), s.Via, classList(s.Classes))
+			}
+		}
+		return
 	}
 	if *dump != "" {
 		p, err := Load(*tags, nil)
